@@ -1,8 +1,9 @@
 #!/bin/sh
-# regenerate lean/LiskVerif/Gen/Fns.lean from /repo
+# regenerate lean/LiskVerif/Gen/Fns.lean and lean/LiskVerif/Gen/Fns2.lean from /repo
+# (both files are replaced together, and only if both translations succeed)
 set -e
 cd "$(dirname "$0")"
 export GOFLAGS=-mod=mod GOPROXY=off GOSUMDB=off GOTOOLCHAIN=local
 mkdir -p ../../.build ../../lean/LiskVerif/Gen
 go build -o ../../.build/fngen .
-../../.build/fngen -repo "${VERIF_REPO:-/repo}" -out ../../lean/LiskVerif/Gen/Fns.lean
+../../.build/fngen -repo "${VERIF_REPO:-/repo}" -out ../../lean/LiskVerif/Gen/Fns.lean -out2 ../../lean/LiskVerif/Gen/Fns2.lean
